@@ -2056,6 +2056,10 @@ export class ObjectRuntype extends BaseRuntype {
         optionalized.add(k);
       } else {
         properties[k] = raw;
+        // a property that only admits null is not required either: the validator accepts its absence
+        if (typeof raw !== "boolean" && raw.type === "null") {
+          optionalized.add(k);
+        }
       }
       popPath(ctx);
     }
